@@ -86,3 +86,14 @@ Lemma guard_accepts_neighbours :
     [YieldPer 3; Unique KFirst; FetchMany None; Mappings; Columns [1; 0]; Partitions (Some 1) 2; ToRoot;
      IterFor 2; Scalars 1; Unique KRow; FetchMany (Some 2); Freeze; OnlyOne ScalarOne; Close; All] = true.
 Proof. vm_compute. repeat split; reflexivity. Qed.
+
+(* why fetchmany()/partitions() without a size and without yield_per is outside the property: the chunk is
+   whatever the strategy does by default (cursor.arraysize = 1 on sqlite3; everything when buffering) *)
+Lemma sizeless_chunk_is_strategy_specific :
+  run_impl StDirect 1 [[VI 1]; [VI 2]; [VI 3]] [FetchMany None] = [(OItems [IRow [VI 1]], false)] /\
+  run_impl (StBuffered 5) 1 [[VI 1]; [VI 2]; [VI 3]] [FetchMany None] =
+    [(OItems [IRow [VI 1]; IRow [VI 2]; IRow [VI 3]], false)] /\
+  run_impl StDirect 1 [[VI 1]; [VI 1]; [VI 3]] [Unique KRow; FetchMany None] = [(OUnit, false); (OItems [IRow [VI 1]], false)] /\
+  run_impl StDirect 1 [[VI 1]; [VI 2]; [VI 3]] [YieldPer 2; FetchMany None] =
+    [(OUnit, false); (OItems [IRow [VI 1]; IRow [VI 2]], false)].
+Proof. vm_compute. repeat split; reflexivity. Qed.
